@@ -265,10 +265,9 @@ def evalChecksig (cx : Ctx) (e : SEE) (sig key : Bytes) : M (Bool × ExecData) :
   else
     match e.sigversion with
     | .TAPROOT =>
-      -- `success = checker.CheckSchnorrSignature(...); return success;` (serror not passed: a failure leaves the previous error value)
+      -- `success = checker.CheckSchnorrSignature(..., serror); return success;` (the checker reports the reason of a failure)
       match cx.checkSchnorr sig key .TAPROOT e.execdata with
       | .ok () => pure (true, e.execdata)
-      | .error (.script _) => fail .UNKNOWN_ERROR
       | .error x => .error x
     | .BASE | .WITNESS_V0 => do
       let ok ← evalChecksigPreTapscript cx e sig key
